@@ -513,9 +513,53 @@ pub enum GenKind {
     AdvStandardInPlace,
 }
 
+/// A chain in which EVERY signature is valid (the adversary's own signer sets and genesis key, and the
+/// verifier is configured with that genesis key) but exactly one conjunct of the statement is broken.
+#[derive(Clone, Copy, Debug, PartialEq)]
+pub enum Break {
+    MissingNextParameters,
+    MissingNextAvk,
+    ParametersChangeUncommitted,
+    AvkChangeUncommitted,
+    SameEpochAvkChange,
+    SameEpochParametersChange,
+    EpochGap,
+    FollowingEpochLink,
+    EpochMissingInMessage,
+    EpochOtherInMessage,
+    SignedMessageArbitrary,
+    HashStale,
+    GenesisEpochMissingInMessage,
+    GenesisEpochOtherInMessage,
+    GenesisSignedMessageArbitrary,
+    GenesisCommitsOtherAvk,
+    GenesisCommitsOtherParameters,
+}
+pub const BREAKS: [Break; 17] = [
+    Break::MissingNextParameters,
+    Break::MissingNextAvk,
+    Break::ParametersChangeUncommitted,
+    Break::AvkChangeUncommitted,
+    Break::SameEpochAvkChange,
+    Break::SameEpochParametersChange,
+    Break::EpochGap,
+    Break::FollowingEpochLink,
+    Break::EpochMissingInMessage,
+    Break::EpochOtherInMessage,
+    Break::SignedMessageArbitrary,
+    Break::HashStale,
+    Break::GenesisEpochMissingInMessage,
+    Break::GenesisEpochOtherInMessage,
+    Break::GenesisSignedMessageArbitrary,
+    Break::GenesisCommitsOtherAvk,
+    Break::GenesisCommitsOtherParameters,
+];
+
 #[derive(Clone, Debug)]
 pub enum Desc {
     Identity,
+    /// fully signed chain under the configured (adversary's) genesis key with one broken conjunct
+    SignedRuleBreak { kind: Break, at: usize },
     OffPath { victim: usize, edit: Edit },
     Edit { pos: usize, edit: Edit, serve: Serve },
     AdvResign { pos: usize, own_params: bool, serve: Serve },
@@ -554,6 +598,7 @@ impl Desc {
     pub fn class(&self, ctx: &Ctx) -> String {
         match self {
             Desc::Identity => "control:identity".into(),
+            Desc::SignedRuleBreak { kind, .. } => format!("fully_signed_rule_break:{kind:?}"),
             Desc::OffPath { .. } => "control:off_path_edit".into(),
             Desc::Edit { pos, edit, .. } => {
                 format!("edit{}:{}", if *pos == ctx.n() { "_genesis" } else { "" }, edit.name())
@@ -663,6 +708,13 @@ pub fn descriptors(ctx: &Ctx) -> Vec<Desc> {
             v.push(Desc::SwapAnswers { a, b });
         }
     }
+    for kind in BREAKS {
+        for at in 0..=n {
+            if break_applicable(ctx, kind, at) {
+                v.push(Desc::SignedRuleBreak { kind, at });
+            }
+        }
+    }
     for k in [Whole::OwnGenesis, Whole::OwnGenesisConfigured, Whole::OnGenuineGenesis, Whole::GenesisEpochUnsignedAvk] {
         v.push(Desc::AdvWhole { kind: k });
     }
@@ -754,6 +806,153 @@ fn adv_suffix(ctx: &Ctx, upto: usize, own_params: bool, root_hash: &str, rng: &m
     Some((out.into_iter().map(|c| c.unwrap()).collect(), ws))
 }
 
+fn cross_epoch(ctx: &Ctx, at: usize) -> bool {
+    at < ctx.n() && ctx.path[at + 1].epoch != ctx.path[at].epoch
+}
+
+pub fn break_applicable(ctx: &Ctx, kind: Break, at: usize) -> bool {
+    let n = ctx.n();
+    match kind {
+        Break::MissingNextParameters | Break::MissingNextAvk | Break::ParametersChangeUncommitted | Break::AvkChangeUncommitted | Break::EpochGap => {
+            cross_epoch(ctx, at)
+        }
+        Break::SameEpochAvkChange | Break::SameEpochParametersChange => at < n && !cross_epoch(ctx, at),
+        Break::FollowingEpochLink => at + 1 < n,
+        Break::EpochMissingInMessage | Break::EpochOtherInMessage | Break::SignedMessageArbitrary | Break::HashStale => at < n,
+        Break::GenesisEpochMissingInMessage | Break::GenesisEpochOtherInMessage | Break::GenesisSignedMessageArbitrary => at == n,
+        Break::GenesisCommitsOtherAvk | Break::GenesisCommitsOtherParameters => at == n && n >= 1,
+    }
+}
+
+/// Build the fully signed chain mirroring the path (same epochs, entity types, payloads), signed by the
+/// adversary's sets and anchored in a genesis certificate signed by the adversary's genesis key, with
+/// exactly one conjunct broken. Returns (request hash -> certificate) and the query.
+fn signed_rule_break(ctx: &Ctx, kind: Break, at: usize, rng: &mut ChaCha20Rng) -> Option<(Vec<(String, Certificate)>, String)> {
+    let n = ctx.n();
+    let w0 = ctx.adv.shared(0);
+    let w1 = ctx.adv.with_params(&w0.params, rng)?; // other keys, same parameters
+    let w0p = ctx.adv.w0_other_params.clone(); // same keys (same AVK), other parameters
+    let mut epoch: Vec<u64> = ctx.path.iter().map(|c| c.epoch.0).collect();
+    let mut signer: Vec<Arc<EpochWorld>> = vec![w0.clone(); n + 1];
+    let mut commit_avk: Vec<Option<String>> = vec![Some(w0.avk_encoded()); n + 1];
+    let mut commit_params: Vec<Option<String>> = vec![Some(w0.params.compute_hash()); n + 1];
+    let mut arbitrary_sm = vec![false; n + 1];
+    let mut epoch_part: Vec<Option<String>> = vec![None; n + 1]; // filled below
+    let mut set_epoch_part: Option<(usize, Option<String>)> = None;
+    let switch_to = |signer: &mut Vec<Arc<EpochWorld>>, commit_avk: &mut Vec<Option<String>>, commit_params: &mut Vec<Option<String>>, w: &Arc<EpochWorld>| {
+        for i in 0..=at {
+            signer[i] = w.clone();
+            if i < at {
+                commit_avk[i] = Some(w.avk_encoded());
+                commit_params[i] = Some(w.params.compute_hash());
+            }
+        }
+        // the certificate at `at` commits to `w` for what follows it as well
+        commit_avk[at] = Some(w.avk_encoded());
+        commit_params[at] = Some(w.params.compute_hash());
+    };
+    match kind {
+        Break::MissingNextParameters => commit_params[at + 1] = None,
+        Break::MissingNextAvk => commit_avk[at + 1] = None,
+        Break::ParametersChangeUncommitted | Break::SameEpochParametersChange => switch_to(&mut signer, &mut commit_avk, &mut commit_params, &w0p?),
+        Break::AvkChangeUncommitted | Break::SameEpochAvkChange => switch_to(&mut signer, &mut commit_avk, &mut commit_params, &w1),
+        Break::EpochGap => {
+            for e in epoch.iter_mut().take(at + 1) {
+                *e = e.checked_add(1)?;
+            }
+        }
+        Break::FollowingEpochLink => {
+            let d = (epoch[at] + 1).checked_sub(epoch[at + 1])?;
+            for e in epoch.iter_mut().skip(at + 1) {
+                *e = e.checked_add(d)?;
+            }
+        }
+        Break::EpochMissingInMessage | Break::GenesisEpochMissingInMessage => set_epoch_part = Some((at, None)),
+        Break::EpochOtherInMessage | Break::GenesisEpochOtherInMessage => set_epoch_part = Some((at, Some((epoch[at] + 1).to_string()))),
+        Break::SignedMessageArbitrary | Break::GenesisSignedMessageArbitrary => arbitrary_sm[at] = true,
+        Break::HashStale => {}
+        Break::GenesisCommitsOtherAvk => {
+            if epoch[n - 1] == epoch[n] {
+                signer[n] = w1.clone(); // same-epoch link: the genesis certificate CARRIES another key
+            } else {
+                commit_avk[n] = Some(w1.avk_encoded());
+            }
+        }
+        Break::GenesisCommitsOtherParameters => {
+            let w = w0p?;
+            if epoch[n - 1] == epoch[n] {
+                signer[n] = w;
+            } else {
+                commit_params[n] = Some(w.params.compute_hash());
+            }
+        }
+    }
+    for i in 0..=n {
+        epoch_part[i] = Some(epoch[i].to_string());
+    }
+    if let Some((i, v)) = set_epoch_part {
+        epoch_part[i] = v;
+    }
+    // bottom-up
+    let mut out: Vec<Option<Certificate>> = vec![None; n + 1];
+    let mut prev_hash = String::new();
+    for i in (0..=n).rev() {
+        let orig = &ctx.path[i];
+        let w = &signer[i];
+        let mut made = None;
+        for attempt in 0..40 {
+            let mut pm = mithril_common::entities::ProtocolMessage::new();
+            if i < n {
+                // payload parts of the mirrored certificate
+                for (k, v) in &orig.protocol_message.message_parts {
+                    if !matches!(k, K::NextAggregateVerificationKey | K::NextProtocolParameters | K::CurrentEpoch) {
+                        pm.set_message_part(*k, v.clone());
+                    }
+                }
+                if attempt > 0 {
+                    pm.set_message_part(K::SnapshotDigest, format!("retry-{attempt}"));
+                }
+            }
+            if let Some(v) = &commit_avk[i] {
+                pm.set_message_part(K::NextAggregateVerificationKey, v.clone());
+            }
+            if let Some(v) = &commit_params[i] {
+                pm.set_message_part(K::NextProtocolParameters, v.clone());
+            }
+            if let Some(v) = &epoch_part[i] {
+                pm.set_message_part(K::CurrentEpoch, v.clone());
+            }
+            let sm = if arbitrary_sm[i] { random_hex(rng) } else { pm.compute_hash() };
+            let signature = if i == n {
+                CertificateSignature::GenesisSignature(ctx.adv.genesis.sign(sm.as_bytes()))
+            } else {
+                let CertificateSignature::MultiSignature(entity, _) = &orig.signature else { return None };
+                let Some(ms) = w.sign(sm.as_bytes()) else { continue };
+                CertificateSignature::MultiSignature(entity.clone(), ms)
+            };
+            let mut md = orig.metadata.clone();
+            md.protocol_parameters = w.params.clone();
+            md.signers = if i == n { vec![] } else { w.parties.clone() };
+            let mut c = Certificate::try_new(prev_hash.clone(), Epoch(epoch[i]), md, pm, w.avk.clone(), signature, None, None).ok()?;
+            if arbitrary_sm[i] {
+                c.signed_message = sm;
+                rehash(&mut c)?;
+            }
+            made = Some(c);
+            break;
+        }
+        let mut c = made?;
+        if kind == Break::HashStale && i == at {
+            c.hash = random_hex(rng);
+        }
+        prev_hash = c.hash.clone();
+        out[i] = Some(c);
+    }
+    let certs: Vec<Certificate> = out.into_iter().map(|c| c.unwrap()).collect();
+    let q = certs[0].hash.clone();
+    Some((certs.into_iter().map(|c| (c.hash.clone(), c)).collect(), q))
+}
+
 pub fn materialize(d: &Desc, ctx: &Ctx, rng: &mut ChaCha20Rng) -> Option<Scenario> {
     let n = ctx.n();
     let class = d.class(ctx);
@@ -766,6 +965,18 @@ pub fn materialize(d: &Desc, ctx: &Ctx, rng: &mut ChaCha20Rng) -> Option<Scenari
     let mut detail = json!({});
     match d {
         Desc::Identity => honest = true,
+        Desc::SignedRuleBreak { kind, at } => {
+            serve_name = "recompute_up";
+            let (certs, q) = signed_rule_break(ctx, *kind, *at, rng)?;
+            table = Table::new();
+            for (req, c) in certs {
+                table.insert(req, Arc::new(c));
+            }
+            query = q;
+            genesis_vk = ctx.adv.genesis_vk();
+            detail = json!({"broken_at_position_from_start": at, "epoch": ctx.path[*at].epoch.0,
+                            "note": "every signature valid; verifier configured with the key that signed the genesis certificate"});
+        }
         Desc::OffPath { victim, edit } => {
             let v = &ctx.fam.certs[*victim];
             let c = apply_edit(v, edit, ctx, rng)?;
